@@ -47,7 +47,11 @@ var c10Scenarios = []string{
 
 var c10Signing = map[string]bool{"callback-post-done": true, "callback-redirect-done": true, "callback-body-done": true, "attrquery": true, "metadata-signed": true}
 
-var c10KeyKinds = []string{"error", "timeout", "canceled", "uncomparable", "nil", "nokey", "zerokey", "nocert", "emptycert", "errval"}
+// c10ContentKinds: defects of what a key record holds (an unfilled key, a certificate of another key, bytes that are no
+// certificate) as opposed to failures of the retrieval: only a use of the key can notice them
+var c10ContentKinds = map[string]bool{"zerokey": true, "mismatch": true, "garbagecert": true}
+
+var c10KeyKinds = []string{"error", "timeout", "canceled", "uncomparable", "nil", "nokey", "zerokey", "nocert", "emptycert", "mismatch", "garbagecert", "errval"}
 
 // c10KindsOf lists the fault kinds of an operation: a returned error; for lookups also an error accompanied by a usable value
 // (callers must go by the error); for the user-info setters also an error after part of the record was delivered.
@@ -267,7 +271,7 @@ func c10Run(c C10Case) c10Result {
 	for _, cl := range calls {
 		if cl.Faulted {
 			nFired++
-			zeroOnly = zeroOnly && cl.Kind == "zerokey"
+			zeroOnly = zeroOnly && c10ContentKinds[cl.Kind]
 		}
 	}
 	zeroOnly = zeroOnly && nFired > 0
@@ -278,7 +282,7 @@ func c10Run(c C10Case) c10Result {
 	for _, f := range c.Faults {
 		// ... and only the key that signs in this scenario counts (the metadata document merely publishes the response key's
 		// certificate)
-		if f.Kind == "zerokey" && (f.Occurrence != 0 || f.Op != signingOp) {
+		if c10ContentKinds[f.Kind] && (f.Occurrence != 0 || f.Op != signingOp) {
 			zeroEvery = false
 		}
 	}
